@@ -75,8 +75,14 @@ def gen_names(ctx):
         yield b'FOO;' + v
         yield b';' + v
         yield b'.;' + v
+    # a line feed / carriage return / space / NUL at either end of each part (anchored patterns and str methods treat a
+    # final newline specially)
+    for ws in (b'\n', b'\r', b' ', b'\x00', b'\t', b'\x0b', b'\x0c', b'\x1c', b'\x85'):
+        for nm in (b'FOO' + ws + b'.TXT;1', b'FOO.TX' + ws + b';1', b'FOO.TXT;1' + ws, ws + b'FOO.TXT;1', b'BAR' + ws + b';1', b'BAR' + ws,
+                   ws + b'BAR', b'FOO.' + ws + b';1', b'F' + ws + b'O.TXT;1', b'DIR' + ws, b'DIR' + ws + ws, b'FOO.TXT;1' + ws + ws):
+            yield nm
     rng = ctx.rng
-    pool = b'ABZ09_.;;..az \x00\xff/+-1237'
+    pool = b'ABZ09_.;;..az \x00\xff/+-1237\n'
     for _ in range(3000 if ctx.quick else 60000):
         ln = rng.choice((1, 2, 3, 5, 8, 9, 12, 13, 14, 20, 40))
         yield bytes(rng.choice(pool) for _ in range(rng.randint(0, ln)))
@@ -378,6 +384,31 @@ def run_api(ctx):
                 ctx.count(key=('udfenc', a, order[0] == a), kind='api:udf-encoding')
                 if res == ['ok', 'ok']:
                     udf_encoding_lookup(ctx, cfg, ops, order)
+        # a path that normalises to the root is not a name: no entry with an empty identifier in any namespace
+        cfg = {'ilevel': 3, 'joliet': 3, 'rr': None, 'udf': '2.60', 'xa': False}
+        for ns in ('joliet', 'udf'):
+            for pth in ('/', '/.', '/a/..', '//'):
+                for op in ({'op': 'addfp', 'cid': 1, 'n': 3, 'iso': '/A.;1', ns: pth}, {'op': 'adddir', 'iso': '/A', ns: pth},
+                           {'op': 'adddir', ns: pth}):
+                    res = scenario(ctx, tmpdir, cfg, [{'op': 'adddir', 'iso': '/AA', 'joliet': '/a', 'udf': '/a'}, op], 'empty-name-%s:%s' % (ns, pth))
+                    ctx.count(key=('empty-name', ns, pth, op['op'], 'iso' in op), kind='api:empty-name')
+                    if res and res[-1] == 'ok':
+                        ctx.violation('C13.empty-name/%s' % ns, 'a %s path %r was accepted as the name of a new entry (%s)' % (ns, pth, op['op']),
+                                      {'kind': 'history', 'cfg': cfg, 'ops': [op], 'label': 'empty-name-%s' % ns})
+        # three and four relocated directories with one identifier: the numbered names given to them must all differ
+        for ver in ('1.09', '1.12'):
+            cfg = {'ilevel': 3, 'joliet': None, 'rr': ver, 'udf': None, 'xa': False}
+            ops = [{'op': 'adddir', 'iso': '/A', 'rr': 'a'}]
+            p_ = '/A'
+            for nm in 'BCDEF':
+                p_ += '/' + nm
+                ops.append({'op': 'adddir', 'iso': p_, 'rr': nm.lower()})
+            for k, leaf in enumerate('GHIJ'):
+                ops.append({'op': 'adddir', 'iso': p_ + '/' + leaf, 'rr': leaf.lower()})
+                ops.append({'op': 'adddir', 'iso': p_ + '/' + leaf + '/DATA', 'rr': 'data'})
+                if k >= 2:
+                    scenario(ctx, tmpdir, cfg, list(ops), 'relocated-same-identifier-x%d:%s' % (k + 1, ver))
+            ctx.count(key=('reloc-same-ident', ver), kind='api:relocated-same-identifier')
         # entries a user puts below the relocation directory obey the uniqueness rule like any other (only relocated
         # directories themselves may share an identifier there)
         for ver in ('1.09', '1.12'):
